@@ -16,7 +16,8 @@ class Batch:
     evaluate validity of each document once."""
 
     # paths inside an event that hold 1-based indices (or lists of indices) into `docs`
-    docref_paths = (("di",), ("di2",), ("doc",), ("docs",), ("replay", "docs"), ("undo", "doc"), ("dis",))
+    docref_paths = (("di",), ("di2",), ("doc",), ("docs",), ("replay", "docs"), ("undo", "doc"), ("dis",),
+                    ("base",), ("auth",), ("confirmed",))
 
     def __init__(self, schema_js):
         self.schema_js = schema_js
